@@ -164,6 +164,7 @@ def explore_config(case):
     numapi.check_composed(res, B, [], selx[:14], case, "config", firsts=["neg", "exp"], seconds=["exp", "wedge", "to_Matrix", "inverse"])
     numapi.check_aliasing(res, B, [], selx[:14], case, "config", ("exp", "wedge", "exp_to_Matrix"))
     numapi.check_symbol_names(res, B, [], selx[:6], case, "config", ("exp", "wedge"))
+    numapi.check_history(res, B, [], selx[:8], case, "config", ["exp", "wedge"], ["ad", "wedge", "exp"])
     numapi.check_threads(res, B, [], numapi.generic_pair(selx), case, "config", ("exp",))
     if is_dp:
         gutil.check_product_by_position(res, B, [], selx, case, "config", ("exp", "wedge"))
